@@ -105,11 +105,11 @@ def write_and_check(scaffolds, infos, buf):
 
 def two_records(s0: int, e0: int, g: int, s1: int, e1: int, s2: int, e2: int, length: int, off: int, leb: int, buf: int) -> bool:
     """
-    pre: off >= 0 and 1 <= leb <= 2 and buf >= 1 and 1 <= g <= 70 and g <= 2 * buf
-    pre: 1 <= s0 <= e0 <= length and e0 - s0 < 65 and e0 - s0 < 2 * buf
-    pre: 1 <= s1 <= e1 <= length and e1 - s1 < 30 and e1 - s1 < 2 * buf
-    pre: 1 <= s2 <= e2 <= length and e2 - s2 < 65 and e2 - s2 < 2 * buf
-    pre: (e0 - s0 + 1) + g + (e1 - s1 + 1) <= 120
+    pre: off >= 0 and 1 <= leb <= 2 and buf >= 1 and 1 <= g <= 50 and g <= 2 * buf
+    pre: 1 <= s0 <= e0 <= length and e0 - s0 < 12 and e0 - s0 < 2 * buf
+    pre: 1 <= s1 <= e1 <= length and e1 - s1 < 12 and e1 - s1 < 2 * buf
+    pre: 1 <= s2 <= e2 <= length and e2 - s2 < 12 and e2 - s2 < buf
+    pre: (e0 - s0 + 1) + g + (e1 - s1 + 1) <= 74
     post: _
     """
     START()
@@ -141,8 +141,8 @@ ENC = ("pretext_to_asm.write_assembly", "pretext_to_asm.get_output_filehandle", 
 def conditions(tier):
     return [
         Cond("write_assembly_fasta_and_agp_agree", HEAD, "two_records", 2400,
-             "two scaffolds (F+ G F- ; F+) over two input records of line width 60: intervals, gap length (1..70), record length, offsets, terminator width and buffer size symbolic; "
-             "fragments <= 65 residues and <= 2 buffers; through the real write_assembly (default line length 60) on an in-memory file system",
+             "two scaffolds (F+ G F- ; F+) over two input records of line width 60: intervals, gap length (1..50), record length, offsets, terminator width and buffer size symbolic; "
+             "fragments <= 12 residues and <= 2 buffers, record <= 74 residues (one wrap at the default line length 60); through the real write_assembly on an in-memory file system",
              tier="thorough", replay="replay_write_assembly", encodes=ENC),
         Cond("write_assembly_gap_spanning_buffers", HEAD, "gap_only_lengths", 900,
              "one scaffold F+ G F-: gap of 1..3 buffers (<= 130), buffer size symbolic: record length == AGP object length == Scaffold.length",
